@@ -145,6 +145,76 @@ def run_in_child(fn, arg, wall_s: float = None):
 
 
 # --------------------------------------------------------------------------
+# worlds under another hash seed: fresh interpreters that fork per request
+
+_SERVERS = {}
+
+
+class WorldServer:
+    def __init__(self, hashseed):
+        import subprocess
+        from sim import world
+        env = dict(os.environ, PYTHONHASHSEED=str(hashseed),
+                   VERIF_REPO_SRC=world.REPO_SRC,
+                   PYTHONDONTWRITEBYTECODE='1')
+        self.hashseed = hashseed
+        self.p = subprocess.Popen(
+            [sys.executable, '-B', os.path.join(VERIF_DIR, 'sim',
+                                                'server.py')],
+            stdin=subprocess.PIPE, stdout=subprocess.PIPE, env=env,
+            text=True, bufsize=1)
+
+    def call(self, mod, fn, arg, wall_s=None, predefined=False):
+        wall_s = wall_s or CHILD_WALL_S
+        self.p.stdin.write(json.dumps(
+            {'mod': mod, 'fn': fn, 'arg': arg, 'wall_s': wall_s,
+             'predefined': predefined}, separators=(',', ':')) + '\n')
+        self.p.stdin.flush()
+        rl, _, _ = select.select([self.p.stdout], [], [], wall_s + 30)
+        if not rl:
+            self.close()
+            raise HarnessError(f"world server (hash seed {self.hashseed}) "
+                               f"does not answer")
+        line = self.p.stdout.readline()
+        if not line:
+            self.close()
+            raise HarnessError(f"world server (hash seed {self.hashseed}) "
+                               f"died")
+        res = json.loads(line)
+        if 'err' in res:
+            raise HarnessError(res['err'])
+        return res['ok']
+
+    def close(self):
+        try:
+            self.p.kill()
+        except Exception:
+            pass
+        _SERVERS.pop(self.hashseed, None)
+
+
+def run_in_world(fn, arg, hashseed=None, predefined=False):
+    """fn(arg) in a fresh world; `hashseed` None = fork of this process,
+    otherwise a fork of a fresh interpreter started under that
+    PYTHONHASHSEED (fn must be a module-level function)."""
+    if hashseed is None:
+        return run_in_child(fn, arg)
+    srv = _SERVERS.get(hashseed)
+    if srv is None or srv.p.poll() is not None:
+        srv = _SERVERS[hashseed] = WorldServer(hashseed)
+    return srv.call(fn.__module__, fn.__name__, arg, predefined=predefined)
+
+
+def _close_servers():
+    for s in list(_SERVERS.values()):
+        s.close()
+
+
+import atexit  # noqa: E402
+atexit.register(_close_servers)
+
+
+# --------------------------------------------------------------------------
 # known findings
 
 class KnownFindings:
